@@ -124,9 +124,15 @@ fn cut_rebuild(_t: &mut PairTable, _lg: u8) {
 
 /// arbitrary windowed sketch (Hybrid / Pinned / Sliding) with <= 2 surprising values
 fn any_windowed() -> (CpcSketch, [u64; K]) {
-    let window: [u8; K] = kani::any();
     let o: u8 = kani::any();
     kani::assume(o <= 56);
+    any_windowed_at(o)
+}
+
+/// the same with the window offset given (concrete per family instance: shifts by a symbolic offset are
+/// what makes the symbolic-offset version take > 10 min)
+fn any_windowed_at(o: u8) -> (CpcSketch, [u64; K]) {
+    let window: [u8; K] = kani::any();
     let slots: [u32; 4] = kani::any();
     let t = vt::raw_table(2, &slots);
     kani::assume(vt::table_invariant(&t));
@@ -163,24 +169,11 @@ fn any_windowed() -> (CpcSketch, [u64; K]) {
     (s, m)
 }
 
-//@ props: C05 C17
-//@ tier: quick
-//@ timeout: 2400
-//@ functions: cpc::sketch::CpcSketch::row_col_update
-//@ functions: cpc::sketch::CpcSketch::update_windowed
-//@ functions: cpc::sketch::CpcSketch::update_hip
-//@ functions: cpc::sketch::CpcSketch::build_bit_matrix
-//@ functions: cpc::pair_table::PairTable::maybe_insert
-//@ functions: cpc::pair_table::PairTable::maybe_delete
-//@ bounds: lg_k = 4, any windowed state: all 16 window bytes symbolic, window offset 0..=56 symbolic, <= 2 surprising values in a 4-slot table (any valid layout), first_interesting_column <= offset; one symbolic (row, col); steps that would move the window are excluded here (c05_move_window covers them)
-//@ assumes: representation invariant of a windowed sketch: num_coupons = popcount of the represented matrix, offset = floor((8C-19K)/8K), C >= 3K/32, surprising values lie outside the window, columns below first_interesting_column are full
-//@ desc: one update from an arbitrary windowed state (early-zone inverted logic, window bit, late surprising value): matrix' = matrix | bit, num_coupons = popcount, validate(), offset and first_interesting_column still valid
-#[kani::proof]
-#[kani::unwind(20)]
-#[kani::stub(CpcSketch::move_window, cut_move_window)]
-#[kani::stub(crate::cpc::pair_table::PairTable::rebuild, cut_rebuild)]
-fn c05_windowed_step_no_move() {
-    let (mut s, mut model) = any_windowed();
+fn windowed_step_case(offset: Option<u8>) {
+    let (mut s, mut model) = match offset {
+        Some(o) => any_windowed_at(o),
+        None => any_windowed(),
+    };
     let row: u32 = kani::any();
     let col: u32 = kani::any();
     kani::assume(row < 16 && col < 64);
@@ -192,12 +185,50 @@ fn c05_windowed_step_no_move() {
     model[row as usize] |= 1u64 << col;
     check_consistent(&s, &model);
     assert!(s.window_offset == o0);
-    kani::cover!(s.num_coupons == c0 + 1 && (col as u8) < o0); // surprising zero removed
-    kani::cover!(s.num_coupons == c0 + 1 && (col as u8) >= o0 + 8 && o0 > 0); // surprising one added
-    kani::cover!(s.num_coupons == c0 + 1 && (col as u8) >= o0 && (col as u8) < o0 + 8 && o0 == 56);
+    if o0 > 0 {
+        kani::cover!(s.num_coupons == c0 + 1 && (col as u8) < o0); // surprising zero removed
+    }
+    if o0 < 56 {
+        kani::cover!(s.num_coupons == c0 + 1 && (col as u8) >= o0 + 8); // surprising one added
+    }
+    kani::cover!(s.num_coupons == c0 + 1 && (col as u8) >= o0 && (col as u8) < o0 + 8); // window bit set
     kani::cover!(s.num_coupons == c0);
     core::mem::forget(s);
 }
+
+macro_rules! windowed_step {
+    ($name:ident, $o:expr) => {
+        #[kani::proof]
+        #[kani::unwind(20)]
+        #[kani::stub(CpcSketch::move_window, cut_move_window)]
+        #[kani::stub(crate::cpc::pair_table::PairTable::rebuild, cut_rebuild)]
+        fn $name() {
+            windowed_step_case($o);
+        }
+    };
+}
+
+//@ family: windowed_step
+//@ props: C05 C17
+//@ tier: thorough
+//@ timeout: 3600
+//@ functions: cpc::sketch::CpcSketch::row_col_update
+//@ functions: cpc::sketch::CpcSketch::update_windowed
+//@ functions: cpc::sketch::CpcSketch::update_hip
+//@ functions: cpc::sketch::CpcSketch::build_bit_matrix
+//@ functions: cpc::pair_table::PairTable::maybe_insert
+//@ functions: cpc::pair_table::PairTable::maybe_delete
+//@ unwind: 20
+//@ stubs: CpcSketch::move_window -> must-not-reach cut; PairTable::rebuild -> must-not-reach cut
+//@ bounds: lg_k = 4, any windowed state: all 16 window bytes symbolic, window offset concrete per instance (0: Hybrid / Pinned, 1, 5, 56: Sliding; the *_any_offset instance has it symbolic 0..=56), <= 2 surprising values in a 4-slot table (any valid layout), first_interesting_column <= offset; one symbolic (row, col); steps that would move the window are excluded (assumed away, move_window is a self-checking cut)
+//@ assumes: representation invariant of a windowed sketch: num_coupons = popcount of the represented matrix, offset = floor((8C-19K)/8K), C >= 3K/32, surprising values lie outside the window, columns below first_interesting_column are full
+//@ desc: one update from an arbitrary windowed state (early-zone inverted logic, window bit, late surprising value): matrix' = matrix | bit, num_coupons = popcount, validate(), offset and first_interesting_column still valid
+windowed_step!(c05_windowed_step_offset_0, Some(0)); //@ tier: quick
+windowed_step!(c05_windowed_step_offset_1, Some(1)); //@ tier: quick
+windowed_step!(c05_windowed_step_offset_5, Some(5));
+windowed_step!(c05_windowed_step_offset_56, Some(56)); //@ tier: quick
+windowed_step!(c05_windowed_step_any_offset, None);
+//@ endfamily: x
 
 // ---------------------------------------------------------------------------------------------
 // serialization at sketch level (Empty / Sparse / Hybrid), wrapper agreement, update() derivation
